@@ -40,6 +40,9 @@ func scratchBase() string {
 }
 
 func caseLines(s scn, ro *runOut) []string {
+	if s.Writer == "unpack-zip-big" {
+		return bigLines(s, ro)
+	}
 	lines := []string{s.line()}
 	if ro.err != "" || ro.res == nil {
 		return lines
@@ -48,12 +51,27 @@ func caseLines(s scn, ro *runOut) []string {
 		lines = append(lines, "mk "+e)
 	}
 	lines = append(lines, ro.destLine)
+	if ro.dlLine != "" {
+		lines = append(lines, ro.dlLine)
+	}
 	for _, ev := range ro.res.Events {
 		lines = append(lines, "sys "+ev.Call)
 	}
 	lines = append(lines, "end", "readers", "check", "temps")
+	if s.K == 0 && ro.res.Completed {
+		// the decision of the writer (complete runs): what the client saw of every response, and what each attempt
+		// did with it — real code vs. the model's transport + fetchDecision / unpack decision
+		if ro.dlLine != "" {
+			lines = append(lines, "http", "outcome")
+		}
+		if ro.upLine != "" {
+			lines = append(lines, ro.upLine)
+		}
+	}
 	if pl := progLine(s); pl != "" {
 		lines = append(lines, pl)
+	} else if ro.progLine != "" {
+		lines = append(lines, ro.progLine)
 	}
 	return lines
 }
@@ -106,23 +124,12 @@ func progLine(s scn) string {
 		}
 		return fmt.Sprintf("prog createatomic tmpdir=%s optdir=%s mode=%s readfails=0", tmpdir, optdir, mode)
 	case "fetch":
-		if s.Var == "signed-main" || s.Var == "signed-sig" || s.Var == "missing-sig" {
-			return "" // two published files (resource and signature): checked through the recorded sequence only
+		if s.Var == "signed-sig" || s.Var == "missing-sig" {
+			return "" // the observed destination is the signature file: checked through the recorded sequence only
 		}
-		hf, bf := "0", "0"
-		if s.Fail == "404" {
-			hf = "1"
-		}
-		if s.Fail == "short" {
-			bf = "1"
-		}
-		return fmt.Sprintf("prog fetch storage=R/dst mode=0 httpfails=%s bodyfails=%s", hf, bf)
+		return fmt.Sprintf("prog download tmpdir=%s storage=R/dst mode=0", tmpdir)
 	case "file-unpack":
-		rf := "0"
-		if s.Fail == "corrupt" {
-			rf = "1"
-		}
-		return fmt.Sprintf("prog fileunpack tmpdir=%s optdir=R/dst/tmp mode=0 readfails=%s", tmpdir, rf)
+		return "" // needs what compress/gzip makes of the file: built with the scenario (runOut.progLine)
 	}
 	return ""
 }
@@ -158,11 +165,30 @@ func (e *c17exec) Do(line string) string {
 		if ro.err != "" {
 			return "harness-error " + strings.ReplaceAll(ro.err, "\n", " ")
 		}
+		if ro.big != nil {
+			return "ok"
+		}
 		e.init = map[string]bool{}
 		for _, x := range ro.res.Init {
 			e.init[x] = true
 		}
 		return "ok"
+	}
+	if e.ro != nil && e.ro.big != nil {
+		// what the real unpacking did with the one big member
+		switch f[0] {
+		case "zipcopy":
+			if e.ro.big.failed == 1 {
+				return "written=- failed=1"
+			}
+			return fmt.Sprintf("written=%d failed=0", e.ro.big.member)
+		case "unpack":
+			if e.ro.big.published == 1 {
+				return "publish"
+			}
+			return "no-publish"
+		}
+		return "bad-op"
 	}
 	if e.ro == nil || e.ro.res == nil {
 		return "no-run"
@@ -178,6 +204,34 @@ func (e *c17exec) Do(line string) string {
 			return "ok"
 		}
 		return "dest-differs " + e.ro.destLine
+	case "dl":
+		if line == e.ro.dlLine {
+			return "ok"
+		}
+		return "dl-differs " + e.ro.dlLine
+	case "http":
+		// what the observing transport of the writer process saw of every response for the resource
+		for _, l := range strings.Split(e.ro.res.WriterOut, "\n") {
+			if strings.HasPrefix(l, "http: ") {
+				return strings.TrimPrefix(l, "http: ")
+			}
+			if l == "http:" {
+				return ""
+			}
+		}
+		return "no-http-report"
+	case "outcome":
+		return observedOutcomes(e.ro)
+	case "unpack":
+		if d, ok := parseDest(e.ro.destLine); ok {
+			for _, ev := range e.ro.res.Events {
+				f := strings.Fields(ev.Call)
+				if ev.Res == "ok" && f[0] == "rename" && f[2] == d.path {
+					return "publish"
+				}
+			}
+		}
+		return "no-publish"
 	case "sys":
 		if e.i >= len(e.ro.res.Events) {
 			return "trace-ended"
@@ -228,6 +282,88 @@ func (e *c17exec) Do(line string) string {
 		return "ok"
 	}
 	return "bad-op"
+}
+
+// observedOutcomes reads off the recorded calls what every attempt of a download did: a pending file created in
+// the registry's tmp dir for the resource starts an attempt; the bytes written to it; whether it was renamed onto
+// the destination (and whether a signature file was renamed into place during the attempt). An attempt that
+// ended before a pending file existed is visible only through its signature request.
+func observedOutcomes(ro *runOut) string {
+	d, ok := parseDest(ro.destLine)
+	if !ok {
+		return "no-dest"
+	}
+	base := d.path[strings.LastIndexByte(d.path, '/')+1:]
+	sigDest := ""
+	for _, kv := range strings.Fields(ro.dlLine) {
+		if strings.HasPrefix(kv, "sigdest=") && kv != "sigdest=-" {
+			sigDest = strings.TrimPrefix(kv, "sigdest=")
+		}
+	}
+	type att struct {
+		tmp, fd  string
+		written  int64
+		pub, sig bool
+		open     bool
+	}
+	var atts []*att
+	for _, ev := range ro.res.Events {
+		if ev.Res != "ok" {
+			continue
+		}
+		f := strings.Fields(ev.Call)
+		var cur *att
+		if len(atts) > 0 {
+			cur = atts[len(atts)-1]
+		}
+		switch f[0] {
+		case "open":
+			if strings.HasPrefix(f[1], "R/dst/tmp/."+base+"#") && strings.Contains(f[2], "excl") {
+				atts = append(atts, &att{tmp: f[1], fd: strings.TrimPrefix(f[len(f)-1], "fd="), open: true})
+			}
+		case "write":
+			if cur != nil && cur.open && f[1] == cur.fd {
+				if p := strings.Split(f[2], ":"); len(p) == 3 {
+					var n int64
+					fmt.Sscan(p[2], &n)
+					cur.written += n
+				}
+			}
+		case "close":
+			if cur != nil && f[1] == cur.fd {
+				cur.open = false
+			}
+		case "rename":
+			if cur != nil && f[1] == cur.tmp && f[2] == d.path {
+				cur.pub = true
+			}
+			if cur != nil && sigDest != "" && f[2] == sigDest {
+				cur.sig = true
+			}
+		}
+	}
+	var out []string
+	for _, a := range atts {
+		o := "abort"
+		if a.pub {
+			o = "publish"
+			if a.sig {
+				o = "publish+sig"
+			}
+		}
+		out = append(out, fmt.Sprintf("%s:%d", o, a.written))
+	}
+	if len(atts) == 0 {
+		for _, l := range strings.Split(ro.res.WriterOut, "\n") {
+			var n int
+			if _, err := fmt.Sscanf(l, "sigreqs: %d", &n); err == nil {
+				for i := 0; i < n; i++ {
+					out = append(out, "none:0")
+				}
+			}
+		}
+	}
+	return strings.Join(out, ";")
 }
 
 func (e *c17exec) allObsAllowed() bool {
@@ -423,6 +559,28 @@ func monitor(c hxlib.Case, outs []string) (vs []hxlib.Violation) {
 	if err != nil {
 		return nil
 	}
+	if s.Writer == "unpack-zip-big" {
+		// the property on the big-member run: a published directory holds the member completely
+		var size int64 = -1
+		published := false
+		written := ""
+		for i, l := range c.Lines {
+			f := strings.Fields(l)
+			switch f[0] {
+			case "zipcopy":
+				fmt.Sscanf(f[1], "size=%d", &size)
+				written = outs[i]
+			case "unpack":
+				published = outs[i] == "publish"
+			}
+		}
+		if published && written != fmt.Sprintf("written=%d failed=0", size) {
+			return []hxlib.Violation{{Sig: "C17:unpack-zip:member-cut-at-size-limit",
+				What: fmt.Sprintf("archive with one member of %d bytes (MaxUnpackSize %+d): UnpackResources published the directory, but of the member it holds: %s", size, size-bigSize("at-limit"), written),
+				Lines: c.Lines, Output: outs}}
+		}
+		return nil
+	}
 	var d destInfo
 	haveDest := false
 	initial := map[string]string{}
@@ -596,6 +754,9 @@ func generate(r *hxlib.Run, emit func(hxlib.Case)) {
 		}
 		n := ro.res.NKill
 		limit := r.Budget(14, 400)
+		if strings.Contains(s.Srv, "+") {
+			limit = r.Budget(6, 40) // every run of a retry scenario waits out the real back-off (1 s) of the updater
+		}
 		ks := []int{}
 		if n <= limit {
 			for k := 1; k <= n; k++ {
@@ -629,11 +790,30 @@ func generate(r *hxlib.Run, emit func(hxlib.Case)) {
 		cacheMu.Lock()
 		runCache[lines[0]] = ro
 		cacheMu.Unlock()
-		nt := ro.res != nil && len(ro.res.Events) > 0
+		nt := (ro.res != nil && len(ro.res.Events) > 0) || ro.big != nil
+		if ro.big != nil {
+			r.Count("big-member:" + s.Var)
+		}
 		r.Count("writer:" + s.Writer)
 		r.Count("old:" + s.Old)
 		r.Count("tmp:" + s.TmpMode)
 		r.Count("fail:" + s.Fail)
+		if s.Writer == "fetch" {
+			srv := s.Srv
+			if srv == "" || srv == "-" {
+				srv = map[string]string{"short": "len-rst@half", "404": "st404"}[s.Fail]
+				if srv == "" {
+					srv = "ok"
+				}
+			}
+			for i, st := range strings.Split(srv, "+") {
+				if j := strings.IndexByte(st, '@'); j >= 0 {
+					st = st[:j]
+				}
+				r.Count(fmt.Sprintf("server:attempt%d:%s", i+1, st))
+			}
+			r.Count("fetch-variant:" + s.Var)
+		}
 		if s.Pre > 0 {
 			r.Count("history:after-interrupted-run")
 		} else {
@@ -699,6 +879,11 @@ func main() {
 	if len(os.Args) >= 3 && os.Args[1] == "__writer" {
 		os.Exit(runWriter(os.Args[2]))
 	}
+	if len(os.Args) >= 4 && os.Args[1] == "__bigzip" {
+		var n int64
+		fmt.Sscan(os.Args[3], &n)
+		os.Exit(runBigZip(os.Args[2], n))
+	}
 	if len(os.Args) >= 3 && os.Args[1] == "__trace" {
 		os.Exit(runTrace(os.Args[2]))
 	}
@@ -732,7 +917,7 @@ func main() {
 	}
 	hxlib.Main(&hxlib.Harness{
 		Prop:     "C17",
-		Rule:     "a case is one run of one real writer (renameio.WriteFile/Symlink, utils.CreateAtomic/CopyFileAtomic/ReplaceFileAtomic, fstree.Put, updater download via DownloadUpdates against an in-process HTTP server incl. signed and missing-signature downloads, updater.UnpackResources, File.Unpack) in a child process under a ptrace system-call stepper: once to completion and once per crash point k (killed immediately before its k-th file-system-mutating system call; all k when there are few, first/last/random k otherwise), over old states absent / present / present read-only / symlink / directory, contents empty / tiny / small / chunk-boundary sizes / medium / multi-MiB (random or with magic prefixes), TMPDIR on the same file system / on another file system / unusable / explicit temp dir (same and other file system), failing operations (reader error, truncated HTTP body, 404, corrupt gzip / zip, missing source) and history (the same operation killed earlier on the same sandbox). Lines: initial snapshot, translated system calls, final snapshot; per call the errno and the destination as a reader sees it are compared between the kernel and the Lean file-system model, the final snapshot likewise, the Lean safePublish / onlyTemp checkers run on the actual call sequence, and the run must be a path of the Lean program of the writer with the same return value. Non-trivial: the run issued at least one mutating call; distinct by the hash of the lines.",
+		Rule:     "a case is one run of one real writer (renameio.WriteFile/Symlink, utils.CreateAtomic/CopyFileAtomic/ReplaceFileAtomic, fstree.Put, updater download via DownloadUpdates against an in-process HTTP server incl. signed and missing-signature downloads, updater.UnpackResources, File.Unpack) in a child process under a ptrace system-call stepper: once to completion and once per crash point k (killed immediately before its k-th file-system-mutating system call; all k when there are few, first/last/random k otherwise), over old states absent / present / present read-only / symlink / directory, contents empty / tiny / small / chunk-boundary sizes / medium / multi-MiB (random or with magic prefixes), TMPDIR on the same file system / on another file system / unusable / explicit temp dir (same and other file system), failing operations (reader error, missing source; for downloads an in-process server playing per attempt one of 27 answers — body truncated by orderly close or reset at byte 0 / 1 / half / last / random under Content-Length, chunked, close-delimited or HTTP/1.0 framing, body longer or shorter than announced, complete but unannounced, gzip Content-Encoding complete or cut, 204 / 206 / 301 / 302-to-complete / 304 / 404 / 500 / 503, no answer — alone or followed by a retry with a complete answer, through DownloadUpdates and GetFile, unsigned or with signature verification: valid, body not matching the signature under require / warn, unusable signature, no signature; for unpacking gzip files with corrupt trailer / corrupt data / cut in the data / cut in the trailer / trailing garbage / no gzip header and zip archives with a corrupt member / a member shorter than its header / cut in the middle) and history (the same operation killed earlier on the same sandbox). Lines: initial snapshot, translated system calls, final snapshot; per call the errno and the destination as a reader sees it are compared between the kernel and the Lean file-system model, the final snapshot likewise, the Lean safePublish / onlyTemp checkers run on the actual call sequence, and the run must be a path of the Lean program of the writer with the same return value; for downloads that program is derived by the model from the server behaviour (transport + fetchDecision over the guards regenerated from updater/fetch.go), and on complete runs what the client saw of every response (status, ContentLength, bytes read, read error — observed by a wrapper around http.DefaultTransport), the bytes written and the publish / abort outcome of every attempt, and the publish decision of File.Unpack / unpackZipArchive are compared with the model as well. Non-trivial: the run issued at least one mutating call; distinct by the hash of the lines.",
 		Generate: generate,
 		NewExec:  func(*hxlib.Run) hxlib.Exec { return &c17exec{} },
 		Monitor:  monitor,
